@@ -532,6 +532,215 @@ class Walker:
             self.record(kind, node, f_and(cond, UNK), sub, "AUnknown", name + " (in unparsed text)", indirect=True)
 
 
+
+# ---------------------------------------------------------------------------
+# ctx forwarding: calls of helpers whose `ctx` parameter has a DEFAULT value
+# ---------------------------------------------------------------------------
+
+def ctx_helpers(trees):
+    """name -> list of (file, line, index of ctx among positional params or None,
+    default text, is a method).  Every def (module level, nested, method) counts."""
+    out = {}
+    for rel, tree in trees:
+        for n in ast.walk(tree):
+            if not isinstance(n, (ast.FunctionDef, ast.AsyncFunctionDef)):
+                continue
+            a = n.args
+            pos = a.posonlyargs + a.args
+            names = [x.arg for x in pos]
+            dflt = dict(zip(names[len(names) - len(a.defaults):], a.defaults))
+            for x, d in zip(a.kwonlyargs, a.kw_defaults):
+                if d is not None:
+                    dflt[x.arg] = d
+            if "ctx" in dflt:
+                out.setdefault(n.name, []).append({
+                    "file": rel, "line": n.lineno, "index": names.index("ctx") if "ctx" in names else None,
+                    "default": ast.unparse(dflt["ctx"]), "method": names[:1] == ["self"]})
+    return out
+
+
+
+def top_level_defs(trees):
+    """module-level functions and class methods, by bare name (nested defs belong to
+    the body of their enclosing top-level function)"""
+    defs = {}
+    for rel, tree in trees:
+        for n in tree.body:
+            if isinstance(n, (ast.FunctionDef, ast.AsyncFunctionDef)):
+                defs.setdefault(n.name, []).append(n)
+            elif isinstance(n, ast.ClassDef):
+                for m in n.body:
+                    if isinstance(m, (ast.FunctionDef, ast.AsyncFunctionDef)):
+                        defs.setdefault(m.name, []).append(m)
+    return defs
+
+
+def body_nodes(fn):
+    for st in fn.body:
+        yield from ast.walk(st)
+
+
+def reach_sets(trees):
+    """name-based, over-approximating call graph over the top-level defs.
+    calls_user: can (transitively) call a value it was handed -- safe_apply, or a call whose
+    callee is a parameter / local.  reaches_mode: calls_user, or reads `.online` /
+    `.online_output`, or contains a print / eval / exec / compile / input sink."""
+    defs = top_level_defs(trees)
+    probe = Walker("x", [], [], [])
+    seeds_user, seeds_mode, callees = {}, {}, {}
+    for name, nodes in defs.items():
+        cs = set()
+        for n in nodes:
+            locs = local_names(n)
+            for x in body_nodes(n):
+                if isinstance(x, (ast.FunctionDef, ast.AsyncFunctionDef, ast.Lambda)):
+                    locs = locs | local_names(x)
+            for x in body_nodes(n):
+                if isinstance(x, ast.Attribute) and x.attr in ("online", "online_output"):
+                    seeds_mode.setdefault(name, "reads ." + x.attr)
+                if isinstance(x, ast.Call):
+                    if isinstance(x.func, ast.Name):
+                        cs.add(x.func.id)
+                        if x.func.id == "safe_apply":
+                            seeds_user.setdefault(name, "safe_apply")
+                        elif x.func.id in locs and x.func.id not in defs:
+                            seeds_user.setdefault(name, "calls the value " + x.func.id)
+                    elif isinstance(x.func, ast.Attribute):
+                        cs.add(x.func.attr)
+                    k, _ = probe.sink_kind_of(x.func)
+                    if k in ("KPrint", "KExec", "KEval", "KInput", "KCompile"):
+                        seeds_mode.setdefault(name, "sink " + k)
+                elif isinstance(x, ast.Name) and isinstance(x.ctx, ast.Load) and x.id in defs:
+                    cs.add(x.id)
+        callees[name] = cs & set(defs)
+
+    def close(seeds):
+        reach = dict(seeds)
+        changed = True
+        while changed:
+            changed = False
+            for k in defs:
+                if k not in reach:
+                    for c in sorted(callees[k]):
+                        if c in reach:
+                            reach[k] = "via " + c
+                            changed = True
+                            break
+        return reach
+    user = close(seeds_user)
+    mode = close({**seeds_mode, **seeds_user})
+    return defs, user, mode
+
+
+class CtxWalker:
+    """every call (and every bare reference) of a defaulted-ctx helper, with whether the
+    caller has a `ctx` in scope and whether the call passes it"""
+
+    def __init__(self, rel, helpers, out):
+        self.rel, self.helpers, self.out = rel, helpers, out
+
+    def has_ctx(self, fnodes):
+        for f in fnodes:
+            if "ctx" in local_names(f):
+                return True
+        return False
+
+    def visit(self, node, fn, fnodes, in_template):
+        if isinstance(node, (ast.FunctionDef, ast.AsyncFunctionDef)):
+            for d in node.decorator_list + node.args.defaults + [x for x in node.args.kw_defaults if x is not None]:
+                self.visit(d, fn, fnodes, in_template)
+            for st in node.body:
+                self.visit(st, fn + [node.name], fnodes + [node], in_template)
+            return
+        if isinstance(node, ast.Lambda):
+            self.visit(node.body, fn + ["<lambda>"], fnodes + [node], in_template)
+            return
+        if isinstance(node, ast.ClassDef):
+            for st in node.body:
+                self.visit(st, fn + [node.name], fnodes, in_template)
+            return
+        if isinstance(node, ast.Call):
+            name = None
+            method = False
+            if isinstance(node.func, ast.Name):
+                name = node.func.id
+            elif isinstance(node.func, ast.Attribute):
+                name, method = node.func.attr, True
+            if name in self.helpers:
+                cands = [h for h in self.helpers[name] if h["method"] == method or not method]
+                if method:
+                    # x.name(...): only methods, or module functions reached as module.name
+                    cands = [h for h in self.helpers[name] if h["method"]] or (
+                        self.helpers[name] if isinstance(node.func.value, ast.Name) and node.func.value.id in ("vyxal", "helpers", "elements") or (dotted(node.func.value) or "").startswith("vyxal.") else [])
+                if cands:
+                    passes = any(k.arg == "ctx" or k.arg is None for k in node.keywords)
+                    star = any(isinstance(a, ast.Starred) for a in node.args)
+                    if not passes and not star:
+                        # positional: enough arguments to reach ctx in EVERY candidate definition
+                        passes = all(h["index"] is not None and len(node.args) > h["index"] - (1 if h["method"] else 0) for h in cands)
+                    self.record(node, name, fn, fnodes, in_template, passes, "call", cands)
+                self.visit_children(node, fn, fnodes, in_template, skip_func=isinstance(node.func, ast.Name))
+                return
+        if isinstance(node, ast.Name) and isinstance(node.ctx, ast.Load) and node.id in self.helpers:
+            locs = set()
+            for f in fnodes:
+                locs |= local_names(f)
+            if node.id not in locs:
+                self.record(node, node.id, fn, fnodes, in_template, False, "reference", self.helpers[node.id])
+            return
+        if isinstance(node, ast.Constant) and isinstance(node.value, str) and in_template is not None:
+            try:
+                tree = ast.parse(node.value)
+            except (SyntaxError, ValueError):
+                return
+            for st in tree.body:
+                self.visit(st, [in_template], [], "<inside>")
+            return
+        self.visit_children(node, fn, fnodes, in_template)
+
+    def visit_children(self, node, fn, fnodes, in_template, skip_func=False):
+        for child in ast.iter_child_nodes(node):
+            if skip_func and child is getattr(node, "func", None):
+                continue
+            self.visit(child, fn, fnodes, in_template)
+
+    def record(self, node, name, fn, fnodes, in_template, passes, how, cands):
+        has = in_template == "<inside>" or self.has_ctx(fnodes)
+        self.out.append({
+            "file": self.rel, "fn": ".".join(fn) if fn else "<module>", "line": getattr(node, "lineno", 0),
+            "callee": name, "how": how, "passes": bool(passes), "caller_has_ctx": bool(has),
+            "default": "/".join(sorted({h["default"] for h in cands})),
+        })
+
+
+def analyse_ctx(repo, files):
+    trees = []
+    for path in files:
+        if os.path.basename(path) == "dictionary.py":
+            continue
+        tree, _ = G.module_of(path)
+        trees.append(("vyxal/" + os.path.basename(path), tree))
+    helpers = ctx_helpers(trees)
+    calls = []
+    for rel, tree in trees:
+        w = CtxWalker(rel, helpers, calls)
+        for st in tree.body:
+            if isinstance(st, (ast.Assign, ast.AnnAssign)) and isinstance(st.value, ast.Dict):
+                tgt = st.targets[0] if isinstance(st, ast.Assign) else st.target
+                if isinstance(tgt, ast.Name) and tgt.id in ("elements", "modifiers"):
+                    for k, v in zip(st.value.keys, st.value.values):
+                        label = "tpl " + (k.value if isinstance(k, ast.Constant) and isinstance(k.value, str) else "?")
+                        w.visit(v, [label], [], label)
+                    continue
+            w.visit(st, [], [], None)
+    calls.sort(key=lambda c: (c["file"], c["line"], c["callee"]))
+    defs, user, mode = reach_sets(trees)
+    for c in calls:
+        c["risky"] = c["callee"] in mode or c["callee"] not in defs
+        c["why_risky"] = mode.get(c["callee"], "")
+    return helpers, calls, user, mode
+
+
 def analyse(repo):
     files = sorted(glob.glob(os.path.join(repo, "vyxal", "*.py")))
     G.need(len(files) >= 8, "vyxal/*.py: fewer files than expected")
@@ -551,7 +760,10 @@ def analyse(repo):
     for s in sinks:
         s["cond_text"] = show_formula(s["cond"], atoms)
         s["guarded"] = must_false(s["cond"])
-    return {"sinks": sinks, "atoms": atoms, "online_writes": writes, "files": [os.path.basename(f) for f in files], "error": None}
+    helpers, calls, user, mode = analyse_ctx(repo, files)
+    return {"sinks": sinks, "atoms": atoms, "online_writes": writes, "files": [os.path.basename(f) for f in files], "error": None,
+            "ctx_helpers": {k: v for k, v in sorted(helpers.items())}, "ctx_calls": calls,
+            "calls_user_function": dict(sorted(user.items())), "reaches_mode_decision": dict(sorted(mode.items()))}
 
 
 def emit(an):
@@ -571,6 +783,13 @@ def emit(an):
         )
     s += "Definition sinks : list sink :=\n  " + G.clist(rows, "sink") + ".\n"
     rows = ["(%s, %s, %s)" % (G.cstr(w["file"]), G.cstr(w["fn"]), w["kind"]) for w in an["online_writes"]]
+    rows = []
+    for c in an["ctx_calls"]:
+        rows.append("{| c_file := %s; c_fn := %s; c_callee := %s; c_line := %d; c_passes := %s; c_has_ctx := %s; c_risky := %s; c_default_none := %s |}"
+                    % (G.cstr(c["file"]), G.cstr(c["fn"]), G.cstr(c["callee"]), c["line"], G.cbool(c["passes"]), G.cbool(c["caller_has_ctx"]),
+                       G.cbool(c["risky"]), G.cbool(c["default"] == "None")))
+    s += "(* every call / bare reference of a helper whose `ctx` parameter has a default value *)\n"
+    s += "Definition ctx_calls : list ctxcall :=\n  " + G.clist(rows, "ctxcall") + ".\n"
     s += "(* every assignment to an attribute called `online` *)\n"
     s += "Definition online_writes : list (str * str * write_kind) :=\n  " + G.clist(rows, "(str * str * write_kind)") + ".\n"
     return s
@@ -582,6 +801,7 @@ FAILED = (
     "Definition sinks_translator_ok : bool := false.\n"
     "Definition sinks : list sink := [].\n"
     "Definition online_writes : list (str * str * write_kind) := [].\n"
+    "Definition ctx_calls : list ctxcall := [].\n"
 )
 
 
@@ -592,7 +812,8 @@ def generate(repo, outdir):
         an = analyse(repo)
         text = emit(an)
     except Exception as ex:  # noqa: BLE001
-        an = {"sinks": [], "atoms": [], "online_writes": [], "files": [], "error": f"{type(ex).__name__}: {ex}"}
+        an = {"sinks": [], "atoms": [], "online_writes": [], "files": [], "error": f"{type(ex).__name__}: {ex}",
+              "ctx_helpers": {}, "ctx_calls": [], "calls_user_function": {}, "reaches_mode_decision": {}}
         text = FAILED % an["error"].replace("*)", "* )").replace("(*", "( *")[:200]
     changed = []
     if G.write_if_changed(os.path.join(outdir, "Sinks.v"), text):
@@ -607,4 +828,8 @@ if __name__ == "__main__":
     an = analyse(repo)
     for x in an["sinks"]:
         print(f"{x['file']}:{x['line']:<6} {x['fn']:<34} {x['kind']:<9} {x['arg']:<11} {'GUARDED ' if x['guarded'] else '        '} {x['callee']}{' [ref]' if x['indirect'] else ''}  when {x['cond_text']}")
+    bad = [c for c in an["ctx_calls"] if c["caller_has_ctx"] and not c["passes"] and c["risky"]]
+    print(len(an["ctx_helpers"]), "helpers with a defaulted ctx;", len(an["ctx_calls"]), "calls/references;", len(bad), "from a function with ctx in scope that do not pass it to a helper that can reach a mode decision:")
+    for c in bad:
+        print(f"   {c['file']}:{c['line']:<6} {c['fn']:<34} {c['how']:<9} {c['callee']} (default {c['default']}; {c['why_risky']})")
     print(len(an["sinks"]), "sinks;", len(an["atoms"]), "atoms; online writes:", [(w['file'], w['fn'], w['kind']) for w in an["online_writes"]])
